@@ -667,5 +667,9 @@ func finish(c *vlib.Check, col *collector, sites []site, replay bool) {
 	c.Assume("iteration order of every `range <map>` in ledger/common/rewards.go is dictated by the harness through a build-time overlay generated from the current file (keys sorted by a per-loop rank byte); all other code is the repository's")
 	c.Assume("a result that keeps the pot (UpdatedPots.Rewards = pot, no pool rewards: no active stake) is treated as 'nothing distributed', not as a violation of sum = pot")
 	c.Assume("delegator-map loops (distributePoolRewards) are iterated in one fixed order per snapshot: their arithmetic is integer addition; only pool-map orders are permuted")
+	if !replay {
+		// free-running -race pass: concurrent callers on their own snapshots (state the library shares between calls)
+		c.RaceAudit("c45")
+	}
 	c.Finish()
 }
